@@ -508,6 +508,13 @@ func extRandRead(fr *frame, args []value) value {
 				e.axiom(st.BNot(i.bytesEqTerm(d, draw)))
 			}
 		}
+		// A9: a draw does not collide with a value fixed beforehand; the one
+		// such constant that code leaves behind by accident is the zero string
+		zero := make([]value, len(b))
+		for j := range zero {
+			zero[j] = byte(0)
+		}
+		e.axiom(st.BNot(i.bytesEqTerm(zero, draw)))
 	}
 	cl.draws = append(cl.draws, draw)
 	copy(b, draw)
